@@ -56,26 +56,27 @@ def run(repo: Repo, chk: Check):
 
     # num_lines
     nl = fields["num_lines"]
-    nl_expr, nl_node = nl, rn.id
+    candidates = [(nl, rn.id)]
     if isinstance(nl, ast.Name):
-        dd = single_def(nl.id, rn.id)
-        if dd is None:
-            raise AnalysisError("get_code: num_lines has no single definition")
-        nl_expr, nl_node = dd.value, dd.node
-    # one level of local names: lines = s.splitlines(); num_lines = len(lines)
-    if isinstance(nl_expr, ast.Call) and norm(nl_expr.func) == "len" and len(nl_expr.args) == 1 and isinstance(nl_expr.args[0], ast.Name) \
-            and nl_expr.args[0].id != sname:
-        dd = single_def(nl_expr.args[0].id, nl_node)
-        if dd is not None and dd.value is not None:
-            nl_expr = ast.parse(f"len({norm(dd.value)})", mode="eval").body
-            nl_node = dd.node
-    t = norm(nl_expr)
-    forms = {f"len({sname}.splitlines())": "splitlines", f"{sname}.count('\\n') + 1": "count", f"1 + {sname}.count('\\n')": "count"}
-    ok_form = t in forms
-    chk.judge("R17.a", "generate_code:get_code:num_lines formula", ok_form,
-              f"num_lines is {t}, expected len({sname}.splitlines()) or {sname}.count('\\n') + 1 of the string stored under 'code'", {"expr": t}, where)
-    chk.judge("R17.a", "generate_code:get_code:num_lines uses the final string", same_s(nl_node),
-              f"the string {sname} is reassigned between computing num_lines and storing it under 'code'", None, where)
+        ds = rd.at(rn.id, nl.id)
+        if not ds or any(dd.kind != "assign" or dd.index or dd.value is None for dd in ds):
+            raise AnalysisError("get_code: a definition of num_lines is not a plain assignment")
+        candidates = [(dd.value, dd.node) for dd in ds]
+    for nl_expr, nl_node in candidates:
+        # one level of local names: lines = s.splitlines(); num_lines = len(lines)
+        if isinstance(nl_expr, ast.Call) and norm(nl_expr.func) == "len" and len(nl_expr.args) == 1 and isinstance(nl_expr.args[0], ast.Name) \
+                and nl_expr.args[0].id != sname:
+            dd = single_def(nl_expr.args[0].id, nl_node)
+            if dd is not None and dd.value is not None:
+                nl_expr = ast.parse(f"len({norm(dd.value)})", mode="eval").body
+                nl_node = dd.node
+        t = norm(nl_expr)
+        forms = {f"len({sname}.splitlines())": "splitlines", f"{sname}.count('\\n') + 1": "count", f"1 + {sname}.count('\\n')": "count"}
+        ok_form = t in forms
+        chk.judge("R17.a", "generate_code:get_code:num_lines formula", ok_form,
+                  f"num_lines is {t}, expected len({sname}.splitlines()) or {sname}.count('\\n') + 1 of the string stored under 'code'", {"expr": t}, where)
+        chk.judge("R17.a", "generate_code:get_code:num_lines uses the final string", same_s(nl_node),
+                  f"the string {sname} is reassigned between computing num_lines and storing it under 'code'", None, where)
     # num_bytes: every combination of reaching definitions (plain and augmented) must give the formula
     nb = fields["num_bytes"]
 
